@@ -71,10 +71,10 @@ def lattice(tier, seed):
     # variants that take other paths to the tag list: --ignore-vcs-tag + --set-version, tag_scope = branch
     for kind in kinds:
         for cfg, cli0, remote, dry, fetch, variant in itertools.product(
-            cfgs, (None, True, False), ("upstream", None), (False, True), (True, False), ("ignore+set-version", "scope-branch", "ignore")
+            cfgs, (None, True, False), ("upstream", None), (False, True), (True, False), ("ignore+set-version", "scope-branch", "ignore", "hooks-via-cli", "hooks-via-cli-failing")
         ):
-            yield dict(kind=kind, cfg=cfg, cli=(cli0, None, None), hooks=("ok", "ok"), tree="clean", allow_dirty=False, tagmsg="set",
-                       remote=remote, dry=dry, fetch=fetch, variant=variant)
+            yield dict(kind=kind, cfg=cfg, cli=(cli0, None, None), hooks=("fails", "ok") if variant == "hooks-via-cli-failing" else ("ok", "ok"),
+                       tree="clean", allow_dirty=False, tagmsg="set", remote=remote, dry=dry, fetch=fetch, variant=variant)
     if tier != "thorough":
         # a thin hg slice in the quick tier
         for cfg, hk, dry, fetch in itertools.product(cfgs, [("ok", "ok"), ("fails", "ok")], (False, True), (True, False)):
@@ -123,9 +123,10 @@ def build(p):
     lines = ["[bumpver]", 'current_version = "1.2.3"', 'version_pattern = "MAJOR.MINOR.PATCH"',
              f"commit = {str(c).lower()}", f"tag = {str(t).lower()}", f"push = {str(pu).lower()}",
              'tag_message = ""' if p["tagmsg"] == "empty" else 'tag_message = "release {new_version}"']
-    if p["hooks"][0] != "absent":
+    via_cli = p["variant"].startswith("hooks-via-cli")
+    if p["hooks"][0] != "absent" and not via_cli:
         lines.append('pre_commit_hook = "pre.sh"')
-    if p["hooks"][1] != "absent":
+    if p["hooks"][1] != "absent" and not via_cli:
         lines.append('post_commit_hook = "post.sh"')
     if p["variant"] == "scope-branch":
         lines.append('tag_scope = "branch"')
@@ -148,6 +149,8 @@ def args_of(p):
             a.append("--" + flag)
         elif v is False:
             a.append("--no-" + flag)
+    if p["variant"].startswith("hooks-via-cli"):
+        a += ["--pre-commit-hook", "pre.sh", "--post-commit-hook", "post.sh"]
     if p["allow_dirty"]:
         a.append("--allow-dirty")
     if p["dry"]:
